@@ -24,6 +24,7 @@ cov["selftest"] = {
     "subagent_mutants_replayed": len(ss),
     "subagent_mutants_caught": sum(1 for s in ss if s["status"] == "caught"),
     "subagent_mutants_missed": [s["id"] for s in ss if s["status"] == "missed"],
+    "subagent_mutants_not_decided": [{"id": s["id"], "reason": s.get("reason", "")} for s in ss if s["status"] == "not-decided"],
     "refactorings_applied": sum(1 for r in rs if r["status"] != "SKIP"),
     "refactorings_silent": sum(1 for r in rs if r["status"] == "SILENT"),
     "refactorings_skipped": [r["refactor"] for r in rs if r["status"] == "SKIP"],
